@@ -97,6 +97,19 @@ pub fn run(tier: &str, seed: i64) -> Outcome {
             }
         }
     }
+    // shuffled histories: one root for every possible repetition move (the move the root filter drops)
+    for (name, root) in e3::family_roots() {
+        let max_a = if q { 1 } else { 3 };
+        if q && (name == "tactical" || name == "castling-ep") {
+            continue;
+        }
+        for spec in e3::all_shuffles(root, max_a) {
+            for d in 1..=2 {
+                cases.push((spec.clone(), d, false));
+            }
+            cases.push((spec.clone(), 2, true));
+        }
+    }
     // small positions and positions near the middlegame roots
     let collected = std::sync::Mutex::new(Vec::<(Pos, String)>::new());
     let spaces = vec![
